@@ -10,9 +10,10 @@
     whose clocks have not passed [T] — "no deadline falls due while the log is being replicated".
     Without that guard the statement is false in the code as it is: see the [_refuted] theorems. *)
 From stdpp Require Import gmap strings.
-From EV Require Import Base.Str Model.Value Model.Keyspace Model.Reply Model.Prog Model.CmdSet Model.Raft.
+From EV Require Import Base.Str Model.Value Model.Keyspace Model.Reply Model.Prog Model.CmdSet Model.AbsForm Model.Raft.
 From EV Require Import Proofs.RaftLemmas Proofs.RaftDet Proofs.RaftClasses Proofs.RaftProofs Proofs.ProgLemmas.
 From EV Require Import Model.TableTypes Gen.CmdTable Proofs.TableObligations Proofs.HandlerClasses.
+From EV Require Import Proofs.AbsFormProofs Proofs.AbsFormReplay.
 Local Open Scope Z_scope.
 
 Definition det_log (T : Z) (L : list request) : Prop := Forall (fun e => entry_det_b T e = true) L.
@@ -100,12 +101,12 @@ Theorem C07_database_placement pk s d cmd rest d' :
 Proof. exact (database_placement pk s d cmd rest d'). Qed.
 Theorem C07_entry_carries_database sync pk n d cmd rest h :
   n_leader n = true -> sync (lower cmd) = true -> handler_for pk (lower cmd) = Some h ->
-  handle_command sync pk n d (cmd :: rest) = HcPropose (ReqCommand d (cmd :: rest)).
+  handle_command sync pk n d (cmd :: rest) = HcPropose (ReqCommand d (absolute_form (st_now (n_st n)) (cmd :: rest))).
 Proof. exact (leader_proposes sync pk n d cmd rest h). Qed.
 Theorem C07_forward_carries_database sync pk f l d cmd rest :
   n_leader f = false -> n_forward f = true -> n_leader l = true ->
   handle_command sync pk f d (cmd :: rest) = HcForward d (cmd :: rest) ->
-  notify_mutate l d (cmd :: rest) = Some (ReqCommand d (cmd :: rest)).
+  notify_mutate l d (cmd :: rest) = Some (ReqCommand d (absolute_form (st_now (n_st l)) (cmd :: rest))).
 Proof. exact (forwarded_keeps_database sync pk f l d cmd rest). Qed.
 Print Assumptions C07_database_placement.
 
@@ -120,8 +121,39 @@ Theorem C07_classification T d cmd rest :
 Proof. exact (det_always_sound T d cmd rest). Qed.
 Print Assumptions C07_classification.
 
-(** * The unguarded statement is false: witnesses (known findings, design level: commands are
-    replicated, not their effects) *)
+(** * Relative expiries: the leader replicates their absolute form ([Model/AbsForm.v],
+    fixes/fix-absolute-expiry.diff)
+
+    The log the leader builds from the clients' commands — each through [absolute_form] at the leader's
+    clock when it proposes the entry ([C07_entry_carries_database]) — replicates to identical datasets on
+    all nodes as soon as its entries pass the check; an entry with a relative expiry passes it when the
+    deadline it denotes on the leader is at or after the horizon ([C07_leader_entry_replay_stable]),
+    where the command as given never does ([C07_relative_entry_not_det]: EXPIRE / PEXPIRE; SET / GETEX with
+    EX / PX: [set_args_abs], [getex_abs]); and the entry does on the leader what the client asked for, up
+    to the leader's clock reading at proposal time ([C07_leader_entry_is_what_was_asked]). *)
+Theorem C07_leader_log_agree T cmds clk1 clk2 pk1 pk2 s :
+  det_log T (leader_log cmds) -> dl_ge T s -> st_now s <= T -> (forall j, clk1 j <= T) -> (forall j, clk2 j <= T) ->
+  dataset (apply_all clk1 pk1 s (leader_log cmds)) = dataset (apply_all clk2 pk2 s (leader_log cmds)).
+Proof. exact (leader_log_agree T cmds clk1 clk2 pk1 pk2 s). Qed.
+Theorem C07_leader_entry_replay_stable T now d argv :
+  absolute_form now argv <> argv -> abs_horizon T now argv = true ->
+  replica_det T (ReqCommand d (absolute_form now argv)).
+Proof. intros H1 H2. apply entry_det_b_sound. by apply absolute_form_replay_stable. Qed.
+Theorem C07_relative_entry_not_det T d cmd rest :
+  String.eqb (lower cmd) "expire" || String.eqb (lower cmd) "pexpire" = true ->
+  entry_det_b T (ReqCommand d (cmd :: rest)) = false.
+Proof. exact (relative_entry_not_det T d cmd rest). Qed.
+Theorem C07_leader_entry_is_what_was_asked pk s t d argv :
+  fsm_apply pk (at_time s t) (ReqCommand d (absolute_form t argv)) = fsm_apply pk (at_time s t) (ReqCommand d argv).
+Proof. exact (leader_entry_is_what_was_asked pk s t d argv). Qed.
+Print Assumptions C07_leader_log_agree.
+Print Assumptions C07_leader_entry_replay_stable.
+Print Assumptions C07_leader_entry_is_what_was_asked.
+
+(** * The unguarded statement is false: witnesses.  Randomised commands are replicated as commands, not
+    as their effects (known finding); the relative-expiry witnesses below are about *raw* entries, which
+    the leader no longer produces: they show what the rewrite is for ([C07_relative_through_leader_agrees]
+    is their repaired twin) *)
 Definition digest_differs (a b : state) : Prop := show_state (dataset a) <> show_state (dataset b).
 
 Definition last_pick : picker := fun s c => zfirstn c (rev (sorted_elems s)).
@@ -149,6 +181,18 @@ Theorem C07_getex_diverges_refuted :
   exists L, digest_differs (apply_all (fun _ => 1000) (fun _ => default_pick) (init_state 1000) L)
                            (apply_all (fun _ => 1007) (fun _ => default_pick) (init_state 1007) L).
 Proof. exists [c 0 ["SET"; "k"; "v"]; c 0 ["GETEX"; "k"; "EX"; "5"]]. unfold digest_differs. vm_compute. discriminate. Qed.
+
+(** the same three commands handed to a leader whose clock shows 1000: the entries carry absolute
+    deadlines, pass the check, and nodes with clocks 1000 and 1007 agree *)
+Example C07_relative_through_leader_agrees :
+  let L := leader_log [(1000, 0, ["SET"; "k"; "v"]); (1000, 0, ["EXPIRE"; "k"; "100"]);
+                       (1000, 1, ["SET"; "j"; "v"; "PX"; "100"]); (1000, 0, ["GETEX"; "k"; "EX"; "5"])] in
+  L = [c 0 ["SET"; "k"; "v"]; c 0 ["PEXPIREAT"; "k"; "101000"]; c 1 ["SET"; "j"; "v"; "PXAT"; "1100"];
+       c 0 ["GETEX"; "k"; "PXAT"; "6000"]]
+  /\ forallb (entry_det_b 1007) L = true
+  /\ show_state (dataset (apply_all (fun _ => 1000) (fun _ => default_pick) (init_state 1000) L))
+     = show_state (dataset (apply_all (fun _ => 1007) (fun _ => default_pick) (init_state 1007) L)).
+Proof. vm_compute. repeat split; reflexivity. Qed.
 
 (** even an absolute deadline: a node applies the entry that follows it before the deadline, another
     node after it (replication lag or clock skew), and the values differ *)
